@@ -57,7 +57,9 @@ CHECKS = {
    design='4/C06', category='other'),
  'C07': dict(
    technique='Gallina model of eval_instr / get_mem_overlapping / substract_mems / the four read paths of eval_ExprMem tied by exact-output correspondence on store/load histories; every read-back evaluated against a concrete little-endian byte memory',
-   text=("All 1-store x 1-load histories, 2-store histories (quick: seeded sample; thorough: exhaustive 13824 per base) over widths 8/16/32 x offsets 0..7 x constant/symbolic base, random 3..12-store histories and "
+   text=("Theorems (props/C07.v, closed): all assignments of one instruction with register destinations evaluate their sources in the pre-state, in order, and only then bind them; pool dictionary laws (a cell read back at the address and width it was written with returns the written value; other cells, registers untouched); "
+         "with C06 each evaluated source denotes, in every concrete state, its value under the substituted pre-state. Overlapping read-backs, rep prefixes and composition over sequences are NOT theorems: they are decided by the history correspondence. "
+         "All 1-store x 1-load histories, 2-store histories (quick: seeded sample; thorough: exhaustive 13824 per base) over widths 8/16/32 x offsets 0..7 x constant/symbolic base, random 3..12-store histories and "
          "'image' histories (adjacent slices of one symbol): model state dump and read-back trees == implementation, and every implementation read-back == byte-memory interpreter under 3 valuations. "
          "rep-prefixed string instructions with concrete counts are compared with their unrolled steps on the implementation (exploration, no model of the lifter yet). Invariant theorems (disjoint cells, read-back) not yet proved."),
    note=TB + "Modelled, not verified: EvalAbs.v (memory paths). Instruction-sequence composition over lifted x86 semantics is covered only through the rep/unrolled comparison so far.",
@@ -135,7 +137,7 @@ CHECKS = {
    design='4/C19', category='other'),
  'C12': dict(
    technique='call histories on shared objects in one process; every answer compared with its pure answer (Gallina models Simp.v/EvalAbs.v, which are functions by construction; a fresh process for dis/lift/asm); input re-serialisation, table digests, parser-table cache modes',
-   text=("The models of expr_simp / eval_expr / eval_instr are Gallina functions of their explicit arguments (trivially history-independent: props/C12.v); the property is about the implementation, so the check "
+   text=("The models of expr_simp / eval_expr / eval_instr are Gallina functions of their explicit arguments; theorem (props/C12.v, closed): the one extra parameter, the fuel standing for recursion depth, is not a hidden input — more fuel gives the same result, so successful runs agree. The property is about the implementation, so the check "
          "replays histories of 4..50 API calls on shared expression objects and machines (400 quick / 6000 thorough) and compares each answer with the model (or a fresh process for dis/lift/asm/asm_att), "
          "re-serialises the inputs after each call, digests the shared x86 tables before/after, and runs assembler probes under empty / warm / stale (tables written by a modified grammar revision) cache "
          "directories. Failing histories are shrunk by greedy removal. One known finding: the is_eval flag set on shared objects."),
